@@ -27,9 +27,49 @@ def params(k, cmax):
             + [(f'e{i}', 'bool') for i in range(1, k)] + [(f'o{i}', 'bool') for i in range(1, k)])
 
 
+def params_h(k, cmax):
+    """held bodies: a_s action of step s (0 nothing, 1 arrival, 2+2i entry i leaves its body, 3+2i entry task i is cancelled),
+    o_s order of the action against a coinciding wake-up, g_s whether an arrival of step s runs before step s+1, r_i whether
+    entry i leaves by raising"""
+    H = importlib.import_module(HM)
+    return ([('count', 'int', 1, cmax), ('window', 'int', 1, H.WMAX)] + [(f'dt{i}', 'int', 0, H.DTMAX) for i in range(k)]
+            + [(f'a{i}', 'int', 0, 1 + 2 * i) for i in range(1, k)] + [(f'o{i}', 'bool') for i in range(1, k)]
+            + [(f'g{i}', 'bool') for i in range(k - 1)] + [(f'r{i}', 'bool') for i in range(k - 1)])
+
+
+def hold_groups(k, cmax, tier, depth=1, const=None):
+    """Held-body family of k steps.  The first `depth` free actions a1..a_depth are enumerated here over their whole ranges
+    (one generated module per combination, so the union is every schedule); inside a combination the shards are the values
+    of count and, when the enumerated prefix contains a further arrival (the schedules with the most waiting), of the next
+    action as well."""
+    import itertools
+    byname = {p[0]: p for p in params_h(k, cmax)}
+    out = []
+    names = [f'a{i}' for i in range(1, min(depth, k - 1) + 1)]
+    for combo in itertools.product(*[range(byname[n][2], byname[n][3] + 1) for n in names]):
+        on = {'count': list(range(1, cmax + 1))}
+        nxt = f'a{len(names) + 1}'
+        if 1 in combo and nxt in byname:
+            on[nxt] = list(range(byname[nxt][2], byname[nxt][3] + 1))
+        tag = ''.join(f'{n}{v}' for n, v in zip(names, combo))
+        out.append(sched.gen_shards(f'C24_{tier}_h{k}{tag}', HM, params_h(k, cmax), on, entry=(f'check_h{k}', f'reach_h{k}'),
+                                    const={**dict(zip(names, combo)), **(const or {})}, prefix=f'h{k}_{tag}_',
+                                    meta={'k': k, 'hold': True})[1])
+    return out
+
+
 def describe(a, meta):
     k = meta['k']
     steps = []
+    if meta.get('hold'):
+        def act(x):
+            return {0: '', 1: ' arrive'}.get(x) if x < 2 else ((' leave%d' if x % 2 == 0 else ' cancel%d') % ((x - 2) // 2))
+        for i in range(k):
+            x = 1 if i == 0 else a[f'a{i}']
+            steps.append(f'+{a[f"dt{i}"]}' + act(x) + ('(first)' if i and x and a[f'o{i}'] else '')
+                         + ('(runs at next step)' if x == 1 and i < k - 1 and not a[f'g{i}'] else ''))
+        return (f'RateLimiter(count={a["count"]}, window={a["window"]}) held bodies, raises=('
+                + ','.join(str(a[f'r{i}'])[0] for i in range(k - 1)) + ') steps: ' + '; '.join(steps))
     for i in range(k):
         arr = True if i == 0 else a[f'e{i}']
         steps.append(f'+{a[f"dt{i}"]}' + (' arrive' if arr else '') + ('(first)' if i and arr and a[f'o{i}'] else ''))
@@ -46,9 +86,10 @@ def run(R):
     B = [False, True]
     groups = []
     if R.tier == 'quick':
-        pct = 150
+        pct = 240
         groups.append(sched.gen_shards('C24_k5', HM, params(5, 2), {'count': [1, 2], 'e1': B}, entry=('check_5', 'reach_5'),
                                        prefix='k5_', meta={'k': 5})[1])
+        groups += hold_groups(4, 2, 'q', 1)
         R.bounds = {'steps': 5, 'entries': '<= 5', 'count': '1..2', 'window': '1..8', 'clock advance per step': '0..10'}
     else:
         pct = 1300
